@@ -50,9 +50,25 @@ func c12Setup(recv string, L int, flags uint64, format string, via int) slog.Log
 		restore()
 	}
 	var l slog.Logger
-	if recv == "p" {
+	byConstruction := false
+	switch {
+	case recv == "p" && via%5 == 3:
+		// the default logger replaced by a user-made one (SetDefault): the package functions act on it
+		// (a setter's result, i.e. the *Entry itself — the usual spelling SetDefault(New(..).SetLevel(..)))
+		e := slog.New("c12app").SetLevel(slog.InfoLevel)
+		slog.SetDefault(e)
+		l = e
+	case recv == "p":
 		l = slog.Default()
-	} else {
+	case via%5 == 1:
+		// the level reaches the logger at construction: as an option of New
+		l = slog.New("c12", slog.WithLevel(slog.Level(L)))
+		byConstruction = true
+	case via%5 == 4:
+		// … or inherited from the parent it is created from
+		l = slog.New("c12parent").SetLevel(slog.Level(L)).New("c12")
+		byConstruction = true
+	default:
 		l = slog.New("c12")
 	}
 	l.SetWriter(stdoutRec{}).SetErrorWriter(stdoutRec{})
@@ -70,7 +86,12 @@ func c12Setup(recv string, L int, flags uint64, format string, via int) slog.Log
 		if recv == "p" {
 			slog.SetLevel(slog.InfoLevel) // the package level and the default logger's own level differ
 		}
-		l.SetLevel(slog.Level(L))
+		if !byConstruction {
+			l.SetLevel(slog.Level(L))
+		}
+	}
+	if int(l.Level()) != L {
+		fmt.Println("HARNESS-ERROR level not reached", int(l.Level()), L)
 	}
 	return l
 }
